@@ -19,7 +19,7 @@ import CorsVerif.Model.Tree
   `C17_sites`).
 -/
 namespace Cors
-open Gen
+open Gen Node
 namespace Ix
 
 /-- `.error ()` is a run-time panic. -/
@@ -326,6 +326,81 @@ def checkLines (set : SortedSet) (maxLen : Nat) : List Bytes → Int × Nat → 
 def check (set : SortedSet) (acrhs : List Bytes) : Chk Bool :=
   let maxLen := Facts.headers_MaxOWSBytes + set.maxLen + Facts.headers_MaxOWSBytes + 1
   checkLines set maxLen acrhs (-1, 0)
+
+/-! ### internal/origins/radix.go `Tree.Contains`, `node.contains` -/
+
+/-- Position of the first `x` in `l`: what `slices.BinarySearch` returns with `found = true` on a sorted,
+duplicate-free slice (`none` = not found). -/
+def findPos {α : Type} [BEq α] (x : α) : List α → Option Nat
+  | [] => none
+  | y :: ys => if y == x then some 0 else (findPos x ys).map (· + 1)
+
+/-- `node.contains(scheme, port, wildcardSubs)` on the parallel slices `n.schemes`, `n.ports`. -/
+def nodeContains (schemes : List (Bytes × List Int)) (scheme : Bytes) (port : Int) (wild : Bool) : Chk Bool :=
+  match findPos scheme (schemes.map Prod.fst) with             -- i, found := slices.BinarySearch(n.schemes, scheme)
+  | none => pure false
+  | some i => do
+    let ports ← idxG (schemes.map Prod.snd) i                  -- ports := n.ports[i]
+    pure (ports.contains (Node.code port wild) || ports.contains (Node.wildCode wild))
+
+mutual
+def depth : Node → Nat
+  | .mk _ _ kids => depthKids kids + 1
+def depthKids : List (Nat × Node) → Nat
+  | [] => 0
+  | (_, c) :: rest => max (depth c) (depthKids rest)
+end
+
+/-- The `for` of `Tree.Contains` on the parallel slices `n.edges`, `n.children`; the host is the string itself
+(the list-level model works on the reversed host and keeps `suf` reversed). -/
+def treeLoop : Nat → Node → Bytes → Bytes → Int → Chk Bool
+  | 0, _, _, _, _ => .error ()
+  | fuel + 1, n, host, scheme, port => do
+    match ← lastByte host with
+    | none => nodeContains n.schemes scheme port false
+    | some label =>
+      if ← nodeContains n.schemes scheme port true then return true
+      match findPos label (n.kids.map Prod.fst) with           -- i, found := slices.BinarySearch(n.edges, label)
+      | none => return false
+      | some i =>
+        let c ← idxG (n.kids.map Prod.snd) i                   -- n = &n.children[i]
+        let (prefixOfHost, _, suf) ← splitAtCommonSuffix host c.suf.reverse
+        if suf.length != c.suf.length then return false
+        treeLoop fuel c prefixOfHost scheme port
+
+/-- `Tree.Contains`. -/
+def treeContains (t : Node) (o : Origin) : Chk Bool :=
+  treeLoop (depth t + 1) t o.host.value o.scheme o.port
+
+/-! ### The request path: `origins.Parse`, then `Tree.Contains` -/
+
+/-- `origins.Parse` over the index-level lexers (`strings.CutPrefix` is library code: `Bytes.cutPrefix`). -/
+def parse (str : Bytes) : Chk (Option Origin) := do
+  if str.length > Facts.origins_Parse_maxOriginLen then return none
+  match ← parseScheme str with
+  | none => return none
+  | some (scheme, str) =>
+    match str.cutPrefix Facts.origins_schemeHostSep with
+    | none => return none
+    | some str =>
+      match ← fastParseHost str with
+      | none => return none
+      | some (host, str) =>
+        if str.isEmpty then return some { scheme := scheme, host := host, port := 0 }
+        else match str.cutPrefix [Facts.origins_hostPortSep] with
+          | none => return none
+          | some str =>
+            match ← parsePort str with
+            | none => return none
+            | some (port, rest) =>
+              if !rest.isEmpty then return none
+              else return some { scheme := scheme, host := host, port := port }
+
+/-- The decision "is this `Origin` header value allowed by the tree" along the request path. -/
+def originAllowed (t : Node) (str : Bytes) : Chk Bool := do
+  match ← parse str with
+  | none => return false
+  | some o => treeContains t o
 
 end Ix
 end Cors
